@@ -249,6 +249,10 @@ OPTION_FORMS = ("partial", "nonevals", "extra-key", "reuse-first", "reuse-second
 OBJECT_FORMS = ("copy-before-def", "orig-after-copy", "copy-after-def", "odict", "twice")
 STATIC_FORMS = ("static-qubits", "static-desc", "static-qobj", "static-pos", "static-tuple")
 OPT_DEFAULTS = {"pivot": {"aux": False}, "cvo": {"with_aux": True, "mcg_method": "linear"}}
+# flag-form pass: the boolean option (`aux` of pivot, `with_aux` of CVO-QRAM) handed over as numpy.bool_ / int 1 / 0 through
+# the constructor (opt_params by keyword / positionally) and the static initialize (keyword / positionally, permuted wires)
+FLAG_TYPES = {"npbool": np.bool_, "int": int}
+FLAG_FORMS = tuple(f"flag:{t}:{e}" for t in FLAG_TYPES for e in ("ctor", "ctor-pos", "static", "static-pos"))
 
 
 def _opt_dict(alg, opts):
@@ -303,6 +307,25 @@ def build(alg, opts, d, form="opt", wires=None, width=None):
             kw = {"opt_params": None if form == "none" else {}}
     if form == "label":
         return cls(dict(d), label="psi", **kw)
+    if form in FLAG_FORMS:
+        assert alg != "merge"
+        _, tname, entry = form.split(":")
+        flag = FLAG_TYPES[tname](opts["aux"])
+        assert type(flag) is not bool and bool(flag) == opts["aux"]
+        op = {"aux": flag} if alg == "pivot" else {"with_aux": flag, "mcg_method": opts["method"]}
+        if entry == "ctor":
+            return cls(dict(d), opt_params=op)
+        if entry == "ctor-pos":
+            return cls(dict(d), None, op)
+        hw = max(width + 1, max(wires) + 1)
+        host = QuantumCircuit(hw)
+        if entry == "static":
+            cls.initialize(host, dict(d), qubits=list(wires), opt_params=op)
+        else:
+            cls.initialize(host, dict(d), list(wires), op)
+        gate = host.data[0].operation
+        gate._c06_host, gate._c06_places = host, [list(wires)]
+        return gate
     if form in OPTION_FORMS:
         assert alg != "merge"
         full, dflt = _opt_dict(alg, opts), OPT_DEFAULTS[alg]
@@ -1284,6 +1307,51 @@ def _diversity_calls(ctx, variants):
                 _div_case(ctx, variants, alg, opts, keys, amplitudes(ctx, m, kind), f"call:{form}", form=form, wires=wires)
 
 
+def _diversity_flag_forms(ctx, variants):
+    """flag-form pass.  Options of the entry points (constructor `opt_params`, static `initialize(q_circuit, state, qubits,
+    opt_params)`): pivot `aux` (default False; five `if self.aux:` sites), CVO-QRAM `with_aux` (default True; three sites) and
+    `mcg_method` (a string: no boolean / falsy / second form; every value x with_aux is in VARIANTS + ORACLE_EXTRA); merge has
+    no option.  True and False each as numpy.bool_ and int (the Python singletons are all the other cases), through the four
+    entry forms, at sizes on both sides of the thresholds of the code paths the flag selects: pivot m = 2 (no-aux only), 3, 4,
+    5 (t = ceil(log2 m) = 1, 2, 3: the aux v-chain has t - 1 qubits), n = 2, 3, 4; CVO-QRAM patterns with 0, 1, 2 and >= 3 ones
+    (u / cu / multi-controlled branch of _load_superposition, v-chain with n - 1 work qubits), n = 2, 3, 4.
+    Oracle: the property's own (Statevector of the definition / of the host, auxiliaries |0>); tie: recording wrappers vs the
+    model asked with the canonical bool."""
+    allv = _div_variants(variants)
+    r = ctx.rng
+    i = 0
+    for alg, opts in allv:
+        if alg == "merge":
+            continue
+        sizes = ((2, 2), (2, 3), (3, 4), (3, 5), (4, 5)) if alg == "pivot" else ((2, 3), (3, 5), (4, 6))
+        for form in FLAG_FORMS:
+            for n, m in sizes:
+                if not valid(alg, opts, m):
+                    continue
+                if alg == "cvo" and opts["method"] != "linear" and (n, m) == (4, 6):
+                    continue
+                i += 1
+                width = layout(alg, opts, n, m)[0]
+                wires = _perm_wires(ctx, width, width + 1) if "static" in form else None
+                kind = ("complex", "neg", "fsigned")[i % 3]
+                if alg == "pivot":
+                    sub = _keys_with_pivot(ctx, n, m) if m >= 3 else r.sample(all_keys(n), m)
+                else:
+                    sub = r.sample(all_keys(n), m)
+                    if n >= 3 and "1" * n not in sub:
+                        sub[0] = "1" * n              # a pattern with >= 3 ones: the multi-controlled branch
+                    if n == 4 and "0111" not in sub:
+                        sub[1] = "0111"
+                    sub = list(dict.fromkeys(sub))
+                    while len(sub) < m:
+                        k = r.choice(all_keys(n))
+                        if k not in sub:
+                            sub.append(k)
+                keys = order_for(ctx, alg, sub)
+                ctx.count(f"flagforms:{'aux' if alg == 'pivot' else 'with_aux'}:{form.split(':')[1]}:{opts['aux']}")
+                _div_case(ctx, variants, alg, opts, keys, amplitudes(ctx, m, kind), f"flagforms:{form[5:]}", form=form, wires=wires)
+
+
 def _diversity_sizes(ctx, variants):
     """size ladders combined with the new forms: n = 1, 2, 3 with m = 1, 2, 3, 4, 5, 2^n; pivot m = 3, 4, 5, 8, 9"""
     allv = _div_variants(variants)
@@ -1318,6 +1386,7 @@ def _diversity_all(ctx, variants):
     _diversity_scale_phase(ctx, variants)
     _diversity_orders(ctx, variants)
     _diversity_calls(ctx, variants)
+    _diversity_flag_forms(ctx, variants)
     _diversity_sizes(ctx, variants)
 
 
